@@ -9,6 +9,7 @@ import modelx as mx
 from modelx.export import transformer as _tr
 from modelx.export import exporter as _ex
 import c15gen as G
+import c15lits
 
 VERIF = os.path.dirname(os.path.dirname(os.path.dirname(os.path.abspath(__file__))))
 TMP = os.path.join(VERIF, "build", "C15tmp")
@@ -61,6 +62,8 @@ def mkval(spec, spaces):
         return getattr(spaces[spec[1]], spec[2])
     if k == "module":
         return __import__(spec[1])
+    if k == "lit":          # instance of a subclass of int / float / str (IntEnum, StrEnum, c15lits.Rate ...)
+        return c15lits.make(spec[1])
     raise ValueError(k)
 
 
